@@ -131,7 +131,7 @@ func vh_C04_sign(a []int)      { vhC04(a, false) }
 func vh_C04_sign_twin(a []int) { vhC04(a, true) }
 
 func vhC04(a []int, twin bool) {
-	dsse, nsign, alter := a[0] == 1, a[1], a[2] >= 1
+	dsse, nsign, alter := a[0] == 1, a[1], a[2] >= 1 && a[2] <= 3
 	orig := Link{Type: "link", Name: "N0", Materials: map[string]HashObj{"m": {"sha256": "ab"}}, Command: []string{"make"},
 		ByProducts: map[string]interface{}{"stdout": vConcStr(vPick("stdout", "ok", "tab\tvt\x0besc\x1b[0m\n", "caf\u00e9 \u00c0"))}}
 	origCanon := vspecCanonLink(orig)
@@ -175,6 +175,37 @@ func vhC04(a []int, twin bool) {
 		err := md.VerifySignature(vhEdKey(j, false))
 		vAssert("C04.verifies-iff-signed-by-that-key-before-any-change", (err == nil) == signedBy[j])
 	}
+	if a[2] == 4 {
+		// single-point mutation of a signature: the signature of key 0 is damaged (as in a file that was
+		// tampered with), then the key signs again - the metadata verifies under it again
+		damaged := false
+		if e, isEnv := md.(*Envelope); isEnv {
+			for i := range e.envelope.Signatures {
+				if e.envelope.Signatures[i].KeyID == vhEdIDs[0] {
+					e.envelope.Signatures[i].Sig = "AAAA"
+					damaged = true
+				}
+			}
+		} else {
+			mb := md.(*Metablock)
+			for i := range mb.Signatures {
+				if mb.Signatures[i].KeyID == vhEdIDs[0] {
+					mb.Signatures[i].Sig = "00ff"
+					damaged = true
+				}
+			}
+		}
+		if damaged {
+			vAssert("C04.damaged-signature-does-not-verify", md.VerifySignature(vhEdKey(0, false)) != nil)
+			vAssert("C04.signing-again-succeeds", md.Sign(vhEdKey(0, true)) == nil)
+			vAssert("C04.signing-again-after-a-damaged-signature-then-verifying-succeeds", md.VerifySignature(vhEdKey(0, false)) == nil)
+			if signedBy[1] {
+				vAssert("C04.other-signatures-are-untouched", md.VerifySignature(vhEdKey(1, false)) == nil)
+			}
+		}
+		vReach("C04.end")
+		return
+	}
 	switch a[2] {
 	case 1:
 		// a new payload value
@@ -206,6 +237,19 @@ func vhC04(a []int, twin bool) {
 		err := md.VerifySignature(vhEdKey(j, false))
 		vObserve("verify", j, err == nil)
 		vAssert("C04.verifies-iff-signed-by-that-key-over-current-content", (err == nil) == (signedBy[j] && !alter))
+	}
+	// ... changed metadata that is signed again with a key that signed before verifies under that key (the
+	// outdated signature of the same key is still listed next to the new one)
+	if alter && signedBy[0] {
+		vKnown("KF-C04-resign-keeps-stale-signature", true)
+		rerr := md.Sign(vhEdKey(0, true))
+		vAssert("C04.signing-again-succeeds", rerr == nil)
+		if rerr == nil {
+			verr := md.VerifySignature(vhEdKey(0, false))
+			vObserve("resign", verr == nil)
+			vAssert("C04.signing-changed-metadata-again-then-verifying-succeeds", verr == nil)
+			vAssert("C04.a-key-that-signed-only-the-old-content-still-fails", !signedBy[1] || md.VerifySignature(vhEdKey(1, false)) != nil)
+		}
 	}
 	// ... and the original content assigned again verifies again (legacy wrapper: Signed is an exported field)
 	if mb, isMb := md.(*Metablock); isMb && alter {
